@@ -203,6 +203,7 @@ func (e *Evaluator) Eval(prog *parser.Program) error {
 
 func (e *Evaluator) eval(node parser.Node) (value, error) {
 	if e.Stopped {
+		verifEv("StopSeen", "")
 		return nil, ErrStopped
 	}
 	e.yield()
@@ -287,6 +288,7 @@ func (e *Evaluator) HandleEvent(ev Event) error {
 	}
 	restoreScope := e.pushFuncScope()
 	defer restoreScope()
+	defer verifEv("PopFuncScope", "")
 	args := ev.Params
 	if len(args) < len(eh.Params) {
 		panic("not enough arguments for " + ev.Name)
@@ -303,6 +305,7 @@ func (e *Evaluator) HandleEvent(ev Event) error {
 }
 
 func (e *Evaluator) yield() {
+	verifEv("Yield", "")
 	if e.yielder != nil {
 		e.yielder.Yield()
 	}
@@ -421,6 +424,7 @@ func (e *Evaluator) evalMapLiteral(m *parser.MapLiteral) (value, error) {
 	}
 	order := make([]string, len(m.Order))
 	copy(order, m.Order)
+	verifMap("MapLit", &mapVal{Pairs: pairs, Order: &order}, "")
 	return &mapVal{Pairs: pairs, Order: &order}, nil
 }
 
@@ -430,6 +434,7 @@ func (e *Evaluator) evalFunccall(funcCall *parser.FuncCall) (value, error) {
 		return nil, err
 	}
 	builtin, ok := e.builtins.Funcs[funcCall.Name]
+	verifEv("Call", funcCall.Name)
 	if ok {
 		val, err := builtin.Func(e.scope, args)
 		if funcCall.Name == "test" {
@@ -453,6 +458,7 @@ func (e *Evaluator) evalFunccall(funcCall *parser.FuncCall) (value, error) {
 	}
 	restoreScope := e.pushFuncScope()
 	defer restoreScope()
+	defer verifEv("PopFuncScope", "")
 
 	// Add func args to scope
 	fd := funcCall.FuncDef
@@ -514,6 +520,7 @@ func (e *Evaluator) evalWhile(w *parser.WhileStmt) (value, error) {
 	whileBlock := &w.ConditionalBlock
 	val, ok, err := e.evalConditionalBlock(whileBlock)
 	for ok && err == nil && !isReturn(val) && !isBreak(val) {
+		verifEv("Iter", "while")
 		val, ok, err = e.evalConditionalBlock(whileBlock)
 	}
 	if isBreak(val) {
@@ -534,6 +541,7 @@ func (e *Evaluator) evalFor(f *parser.ForStmt) (value, error) {
 		loopVarName = f.LoopVar.Name
 	}
 	for r.next(e.scope, loopVarName) {
+		verifEv("Iter", "for")
 		val, err := e.eval(f.Block)
 		if err != nil {
 			return nil, err
@@ -574,6 +582,7 @@ func (e *Evaluator) newRange(f *parser.ForStmt) (ranger, error) {
 		order := make([]string, len(*v.Order))
 		copy(order, *v.Order)
 		mapRange := &mapRange{mapVal: v, cur: 0, order: order}
+		verifMap("RangeStart", v, "")
 		if f.LoopVar != nil {
 			e.scope.set(f.LoopVar.Name, &stringVal{})
 		}
@@ -923,15 +932,18 @@ func (e *Evaluator) evalTypeAssertion(ta *parser.TypeAssertion) (value, error) {
 }
 
 func (e *Evaluator) pushScope() {
+	verifEv("PushScope", "")
 	e.scope = newInnerScope(e.scope)
 }
 
 func (e *Evaluator) pushFuncScope() func() {
 	s := e.scope
+	verifEv("PushFuncScope", "")
 	e.scope = newInnerScope(e.global)
 	return func() { e.scope = s }
 }
 
 func (e *Evaluator) popScope() {
+	verifEv("PopScope", "")
 	e.scope = e.scope.outer
 }
